@@ -79,6 +79,10 @@ CLAIMED = {
    text="Control-flow shape of cmd/zlint and formattedoutput decided from decision tables (logrus.Fatal*/os.Exit = process exit): doLint on read/decode/parse/JSON errors × four formats × PEM block types × output flags fails closed (Fatal, nothing written to stdout before) and otherwise parses the decoded bytes of the chosen format, lints with the registry it was handed (CRL iff PEM type X509 CRL), marshals that result's Results and prints it / its indentation / its summary; setLints on all 64 flag combinations and its error cases wires each flag to its own FilterOptions field, applies -config before filtering and returns the filtered (or global) registry; main hands setLints' registry to every doLint call and dies on its error; newRT counts one per result above the threshold into maps allocated per call. Process exit codes, table rendering and byte-level output are not decided.",
    note=TRUST+"logrus.Fatal* terminate the process; pem/base64/json and the zcrypto parsers are oracles.",
    technique="decision-table extraction over go/ssa with no-return modelling; def-use of flag variables", ref="§3 C15"),
+ "C17": dict(level="other",
+   text="Order dependence can only arise in loops over the SAN lists / Extensions or by positional indexing, and those are examined exhaustively: for each of the ~65 outermost loops reachable from a lint whose iterated collection derives from a SAN list, GetParsedDNSNames, the re-parsed SAN value or Extensions, the set of verdicts of its early exits (statuses by interprocedural status-flow, plus 'break') must have at most one element; loop-carried status/result variables may be assigned at most one status; the unique-selector idiom over Extensions is exempt; util.GetExtFromCert looks up by OID and nothing indexes these lists with a constant. Eight genuine violations (NA vs finding at the first unparseable DNS name) are known findings, one reviewed exception (dead NA branch in e_ext_san_empty_name). Order dependence through position arithmetic or non-status helper results is not examined.",
+   note=TRUST+"The parser only hands over extensions whose GeneralNames are well-formed (basis of the single exception).",
+   technique="natural-loop analysis over go/ssa: early-exit verdict sets via status-flow; loop-carried value classification; index census", ref="§3 C17"),
 }
 
 NOT_YET = "check not built yet in this session (see DESIGN.md §3 for the planned static rule)"
